@@ -104,7 +104,8 @@ let rec build_cmd (items : Sx.t list) : UsageModel.hcmd =
         | x -> failwith ("help area: unsupported setting " ^ x)) l
     | "arg" ->
       if !subs <> [] then failwith "help specs list every arg before the subcommands";
-      args := !args @ [build_arg l]
+      args := !args @ [BArg (build_arg l)]
+    | "x-next-heading" -> args := !args @ [BNextHeading (match l with h :: _ -> Some (bs h) | [] -> None)]
     | "sub" -> subs := !subs @ [build_cmd (Sx.args (hd l))]
     | "group" -> c := { !c with hc_groups = !c.hc_groups @ [Spec.build_group l] }
     | "x-sub-valname" -> c := { !c with hc_sub_value_name = Some (bs (hd l)) }
@@ -113,7 +114,7 @@ let rec build_cmd (items : Sx.t list) : UsageModel.hcmd =
     | "x-next-line" -> gset (fun s -> { s with hs_next_line = true })
     | "x-order" -> c := { !c with hc_disp_ord = Some (n (hd l)) }
     | x -> failwith ("help area: unsupported cmd item " ^ x)) (Stdlib.List.tl items);
-  cmd_with !c !args !subs
+  cmd_with_items !c !args !subs
 
 let dw (s : BinNums.coq_N list) = UsageModel.len s
 
